@@ -126,6 +126,42 @@ PROPS["C06"] = {
         "level_note": "Trusted: Lean kernel + {propext, Classical.choice, Quot.sound}; Formatter::pad_integral and str::from_utf8 are modelled from std (not proved); div_rem_digit, div_rem and BigUint squaring inside to_radix_digits_le are at value level (Nat) — their exactness is C02/C03; Vec/ownership not modelled; correspondence strength bounded by the generators (probe RADIX_BIGBASE hit is enforced).",
     }
 
+PROPS["C08"] = {
+        "lean": ["NB.Props.C08"],
+        "gens": ["c08"],
+        "profiles": ["release"],
+        "trusted": ["u64 as f32/f64 = round-to-nearest-even (NB.Conv.castU64); 2.0.powi(e) exact or +inf; multiplying a normal float by a power of two only moves the exponent or overflows to +inf (NB.Conv.fmulPow2)",
+                    "f64::trunc, integer_decode_f64 (num-traits 0.2.19), f64::from(f32) modelled on bit patterns (NB.Conv.truncBits, integerDecode, f32ToF64)",
+                    "num-traits 0.2.19 ToPrimitive/FromPrimitive defaults and impl_to_primitive_* macros modelled from their source (NB.Conv.primTo)",
+                    "BigUint <<= / >>= inside from_f64 modelled at value level (operators are C07's subject)"],
+        "assumptions": COMMON_ASSUME + ["usize/isize are 64 bits wide"],
+        "level_text": "Theorems (NB.Props.C08, all full strength, none _partial) about the model of convert.rs/num-traits defaults: biguint_to_spec / bigint_to_spec — for ALL canonical values and all 12 primitive types x.to_T() is Some(v) exactly when T::MIN<=v<=T::MAX (MIN edges included) and no overflow site is reachable; *_try_into_spec, biguint_try_from_bigint_spec — TryFrom returns Ok(v) iff it fits, else Err carrying exactly the original; *_from_val / *_fromPrim_val — From/FromPrimitive/TryFrom<iN>/ToBig* give the canonical value, negative into BigUint fails; high_bits_spec — high_bits_to_u64 = floor(v/2^s) | [v mod 2^s != 0]; round_to_odd_rne — the double-rounding lemma (needs >= 2 guard bits); to_float_spec (to_f64_spec, to_f32_spec, bigint_to_float_spec) — the returned bit pattern is the IEEE encoding of v rounded to nearest-even, +-inf exactly when the rounded value >= 2^MAX_EXP; rneNat_repr / rneNat_nearest / rneNat_tie_even / encode_denotes / to_from_f64_roundtrip — the spec functions mean 'nearest representable, ties to even' and the pattern denotes that value; fromF64_spec, fromF32_spec, bigint_from_f64_spec, bigint_from_f32_spec — None for NaN/inf (and values <= -1 into BigUint), otherwise truncation toward zero (-0.0 and (-1,0) give 0); drv_oracle_* — the driver's independently written oracles equal these specs. Tied to the source by a 3-way differential run (real crate vs compiled model vs oracle) on every type x boundary value, tie/half+-1ulp mantissa patterns with the deciding bit up to 40 digits down, overflow thresholds, every f32 exponent and structured/random f64 patterns.",
+        "level_note": 'Trusted: Lean kernel + {propext, Classical.choice, Quot.sound}; hardware float behaviour is MODELLED not verified: u64 as f32/f64 is round-to-nearest-even, 2.0.powi(e) exact, multiplication by 2^e exact or +inf, f64::trunc, integer_decode_f64, f64::from(f32) (the harness additionally cross-checks u128/i128 `as` casts in-process); num-traits 0.2.19 defaults modelled from source; BigUint <<= / >>= inside from_f64 at value level (C07); usize/isize = 64 bit; correspondence strength bounded by the generators. Finding D7 (sticky bit of digits 3+ lost in high_bits_to_u64, to_f64(2^128+2^75+2) mis-rounded) was found by this property and is fixed in /repo d40f68d; the model mirrors the fixed line.',
+    }
+
+PROPS["C03"] = {
+        "lean": ["NB.Props.C03"],
+        "gens": ["c03"],
+        "profiles": ["release"],
+        "trusted": ["x86 `div` instruction = exact 128/64 division when hi < divisor, #DE otherwise (NB.divWide)",
+                    "u64::leading_zeros = 64 - bit length (NB.leadingZeros); u128 temporaries modelled as Nat with explicit wrap checks",
+                    "BigUint::to_u32 / BigInt::to_u32 / to_i32 (fast path of Rem) modelled from num-traits defaults (NB.toU32, BigInt.toU32, BigInt.toI32Abs)"],
+        "assumptions": COMMON_ASSUME,
+        "level_text": "Theorems div_rem_spec, div_rem_val_spec, divRef/remRef/modFloor/divCeil/checked*_spec (BigUint) and bigint_divRem/div/rem/divFloor/modFloor/divModFloor/divCeil/divEuclid/remEuclid/divRemEuclid/checked*_spec (BigInt): for ALL canonical operands (any lengths, digit contents, normalisation shifts, all sign pairs) the model of each code path returns exactly the canonical representation of Nat / %, Int.tdiv/tmod, Int.fdiv/fmod, Euclidean Int / %, resp. the ceiling; a zero divisor gives `attempt to divide by zero` for every unchecked form and None for every checked form; no internal failure site (#DE of div, u128/u64 wrap in sub_mul_digit_same_len, the debug assertions of div_rem_core, unreachable!()) is reachable. Knuth algorithm D is proved in full (div_rem_core_spec via submul_spec, qhat_ge_init, qhat_ge_loop, qhat_le, step_spec, addback_iff, core_step_spec); trunc/floor/euclid_unique + cdiv_char show each spec function is the unique (q,r) of its convention. The model is tied to the source by a 3-way differential run (real crate / compiled model / Nat-Int oracle) on constructed add-back, a0==b0, off-by-one and off-by-two estimate windows at core level and through the public API at every normalisation shift.",
+        "level_note": "Trusted: Lean kernel + {propext, Classical.choice, Quot.sound}; the x86 div instruction, u64::leading_zeros, u128 arithmetic and the num-traits to_u32/to_i32 defaults are modelled, not verified; div_half (non-x86 path) is not modelled; Vec/ownership not modelled; correspondence strength bounded by the generators (probe counters DIV_A0_EQ_B0, DIV_CORR, DIV_ADDBACK, DIV_CORE are all hit by the quick tier).",
+    }
+
+PROPS["C07"] = {
+        "lean": ["NB.Props.C07"],
+        "gens": ["c07"],
+        "profiles": ["release", "debug"],
+        "trusted": ["u64 intrinsics leading_zeros/trailing_zeros/trailing_ones/count_ones modelled by NB.C07.lzDigit/tzDigit/toDigit/popDigit; digit `& | ^ << >>` = Nat.land/lor/xor/shiftLeft/shiftRight on digits < 2^64",
+                    "shift amounts of every primitive type are modelled by their mathematical value (Int); usize/u64 range = 2^64"],
+        "assumptions": COMMON_ASSUME,
+        "level_text": "Theorems (NB.Props.C07, 43, no _partial): for ALL canonical operands of any length and all nine sign pairs the model of each code path returns exactly the canonical representation of the mathematical result: BigUint & | ^ = Nat.land/lor/xor (andAssign/andRef/orAssign/orRef/xorAssign/xorRef_spec); BigUint << >> = v*2^k, v/2^k for every non-negative amount incl. amounts past the length, the usize-saturating arm and the capacity-overflow arm, negative amounts panic (shl_spec, shr_spec, shl_capacity, shl/shr_negative); BigInt << >> <<= >>= = x*2^k and floor(x/2^k) = Int.shiftRight (bigint_shl/shlAssign/shr/shrAssign_spec, bigint_shr_eq_shiftRight); !x = -x-1 for both impls; bit = Nat.testBit / Int.testBit; BigUint and BigInt set_bit = lor / ldiff with 2^k incl. all five set_negative_bit sub-cases (set_bit_*_spec_u, bigint_set_bit_spec, *_testBit); bits = Nat.size, trailing_zeros / trailing_ones = exponent of 2 in v resp. v+1, count_ones = number of set bits; BigInt & | ^ (assign and ref-ref forms) = Mathlib Int.land/Int.lor/Int.xor through the nine bit{and,or,xor}_{pos,neg}_{pos,neg} routines with their extend/truncate/push-1 tails (bigint_and/or/xor{Assign,Ref}_spec); every debug_assert/unwrap/expect/index of these routines is an explicit model error proved unreachable (signed_routines_no_internal, shrRoundDown_no_internal, setNegativeBit_no_internal). Tied to the source by a 3-way differential run (real crate vs compiled model vs Nat/Int oracle computed from the values only) over structured values (0, +-1, +-2^k, +-(2^k+-1), +-(B^j-1), +-B^j, complementary patterns forcing the re-negation carry through every digit, long trailing zero/one runs), all nine sign pairs, equal/unequal lengths, shift amounts around digit boundaries and the value length through every primitive type (u8..u128, usize, i8..i128, isize, incl. negative and maximal amounts), bit indices around the lowest set bit for every trailing-zero count 0..199 and around/beyond the top digit, plus an exhaustive -20..20 corpus.",
+        "level_note": "Trusted: Lean kernel + {propext, Classical.choice, Quot.sound}; Mathlib's definitions of Int.land/lor/xor/ldiff/testBit, Nat.size; the u64 intrinsics leading_zeros/trailing_zeros/trailing_ones/count_ones and the digit operators are modelled (NB.C07.lzDigit/tzDigit/toDigit/popDigit, Nat bit ops on digits < 2^64); shift amounts are modelled by their mathematical value with usize/u64 range 2^64; right-shift theorems assume the operand's bit length fits u64 (true of every Vec); Vec/ownership not modelled; correspondence strength bounded by the generators.",
+    }
+
 NOT_CLAIMED = {}
 
 if __name__ == "__main__":
